@@ -60,6 +60,73 @@ def check(repo, col, tier):
     _block(repo, col)
     _where(repo, col)
     _pad(repo, col)
+    col.rule("R-C05-taylor", "the value substituted at a removable singularity carries the derivative of the function it replaces", 2)
+    _taylor(repo, col)
+    col.rule("R-C05-nan", "mechanisms are evaluated only on compartments that have them (NaN placeholders stay out of traced arithmetic)", 4)
+    _nan(repo, col)
+    from . import c10
+    col.rule("R-C05-derived", "geometry given at simulation time reaches the coupling conductances", 1)
+    c10.derived_after_overrides(repo, col, "R-C05-derived")
+
+
+def _taylor(repo, col):
+    """Inside the guard window autodiff differentiates the substituted expression, not the original one: the
+    substitute must therefore agree with the main branch to FIRST order at the singular point (value K and slope
+    -K/2 for K*u/(exp(u)-1)), however narrow the window is."""
+    R = "R-C05-taylor"
+    from . import c03
+    from sa.core import Collector
+    n = 0
+    for f in kin.CHANNEL_FILES:
+        for fi in kin.module_helpers(repo, f):
+            scratch = Collector("C05")
+            info = c03._analyse_helper(repo, scratch, fi)
+            if not info.ok or not info.guarded:
+                continue
+            n += 1
+            col.add(R, fi, f"{fi.name}: derivative of the value used on |u| < {float(info.eps)}",
+                    "DISCHARGED" if info.first_order is True else ("VIOLATED" if info.first_order is False else "UNDECIDED"),
+                    "first-order Taylor polynomial of the main branch" if info.first_order is True else
+                    f"on the guard window `{fi.name}` returns an expression whose derivative at the singular point differs from the limit of the "
+                    f"derivative of the main branch (slope -K/2): the forward value is off by O(eps) only, but jax.grad at a voltage inside the "
+                    f"window returns the wrong derivative", node=fi.node)
+    if n < 2:
+        raise AnalysisError(f"only {n} guarded rate helpers found")
+
+
+def _nan(repo, col):
+    """Rows of the node table without a channel hold NaN in that channel's parameter/state columns.  Evaluating the channel
+    there and masking the result with jnp.where keeps the forward value but sends 0 * NaN through the backward pass.  The
+    update/current functions must therefore receive values GATHERED at the channel's own compartments."""
+    R = "R-C05-nan"
+    n = 0
+
+    def restricted(t):
+        return T.find(t, lambda x: x.op == "attr" and x.name == "_name") is not None
+
+    for mname in ("_step_channels_state", "_channel_currents"):
+        fi = repo.method("Module", mname)
+        ex = idx.expander(repo, fi)
+        sites = []
+        for c in ex.calls:
+            if isinstance(c.func, ast.Name) and c.func.id == "query_channel_states_and_params" and len(c.args) >= 3:
+                sites.append((c, ex.term(c.args[2])))
+        # direct gathers  params[key][IDX] / states[key][IDX] / voltages[IDX]  that feed the mechanism
+        for node in ast.walk(fi.node):
+            if isinstance(node, ast.Subscript) and isinstance(node.ctx, ast.Load) and isinstance(node.value, ast.Subscript) and \
+                    isinstance(node.value.value, ast.Name) and node.value.value.id in ("params", "states"):
+                sites.append((node, ex.term(node.slice)))
+            if isinstance(node, ast.Subscript) and isinstance(node.ctx, ast.Load) and isinstance(node.value, ast.Name) and \
+                    node.value.id == "voltages" and not isinstance(node.slice, (ast.Constant, ast.Slice, ast.Tuple)):
+                sites.append((node, ex.term(node.slice)))
+        for c, t in sites:
+            n += 1
+            col.check(restricted(t), R, fi, f"{mname}: `{unparse(c)[:60]}` gathers at the compartments that have the channel",
+                      "index restricted by the channel's presence column",
+                      f"`{unparse(c)[:80]}` gathers with {t.short(60)}, not restricted to the rows where the channel is present: the channel "
+                      f"is evaluated on NaN placeholders; masking afterwards keeps the forward pass but makes every gradient NaN", node=c)
+    if n < 4:
+        raise AnalysisError(f"only {n} gathers of channel states/parameters found")
 
 
 def _block(repo, col):
